@@ -15,9 +15,11 @@ ShapesOn(S) == LET bs == TLCEval({Box(x1, y1, x2, y2) : x1 \in S, y1 \in S, x2 \
                IN [box |-> {<< <<b>> >> : b \in ok},
                    holed |-> {<< <<p[1], p[2]>> >> : p \in {q \in ok \X ok : Inside(q[2], q[1])}},
                    two |-> {<< <<p[1]>>, <<p[2]>> >> : p \in {q \in ok \X ok : Apart(q[1], q[2]) /\ q[1][1][1] <= q[2][1][1]}}]
+(* "PolygonFlat": all rings of all members in one Polygon value (two disjoint shells - what the operations themselves return
+   for multi-part results); "PolygonHoleFirst": the hole listed before its shell.  The region is the same (even-odd). *)
 TypesFor(kind) == CASE kind = "box" -> {"Polygon", "MultiPolygon", "Bounds"}
-                    [] kind = "holed" -> {"Polygon", "MultiPolygon"}
-                    [] kind = "two" -> {"MultiPolygon"}
+                    [] kind = "holed" -> {"Polygon", "MultiPolygon", "PolygonHoleFirst"}
+                    [] kind = "two" -> {"MultiPolygon", "PolygonFlat"}
 RECURSIVE HashP(_, _)
 HashP(r, a) == IF a > Len(r) THEN 0 ELSE (r[a][1] * 7 + r[a][2] * 13 + a * 3 + 5 * HashP(r, a + 1)) % 1009
 RECURSIVE HashQ(_, _)
